@@ -68,6 +68,9 @@ class Pipe:
         self._add_subscriber(identifier, throughput)
         # stop occupying bandwidth however the transfer ends (cancellation, interruption)
         try:
+            if total == 0:
+                # nothing to transfer, but still let other activities run
+                await postpone()
             while transferred < total:
                 window_start = time.now
                 window_throughput = throughput * self._throughput_scale
